@@ -58,6 +58,8 @@ func c12Dates() []sm.Date {
 	add(1900, 2, 28)
 	add(1900, 3, 1)
 	add(2000, 2, 29)
+	add(0, 1, 1) // Saturday; ISO week 52 of the year before year 0
+	add(0, 1, 2)
 	add(0, 1, 3)
 	add(0, 1, 9)
 	add(0, 1, 10)
@@ -84,7 +86,56 @@ var c12Aggs = []string{"day", "week", "month", "quarter", "year"}
 
 func c12Count(tier fw.Tier) []int {
 	n := len(c12Dates())
-	return []int{n * n, n * n * n, 80, c06EvCount(fw.Quick) * len(c12EvClocks)}
+	return []int{n * n, n * n * n, 80, c06EvCount(fw.Quick) * len(c12EvClocks), c12SpellingDocs}
+}
+
+// documents for the spelling family (every c12SpellingStride-th pair)
+const c12SpellingDocs, c12SpellingStride = 40, 53
+
+// c12Spellings: the views do not depend on how the command line is spelled - short flags, upper-case and
+// one-letter enum values must print exactly what the canonical long spelling prints.
+func c12Spellings(c *fw.Ctx, i int) {
+	text, recs := c12Build(i*c12SpellingStride, 2)
+	fill := "--fill"
+	if d := recs[0].day - recs[1].day; d > 800 || d < -800 {
+		fill = "--diff" // (a harmless repetition) no gap filling over millennia: resource use is not in the quantifier
+	}
+	dir := fw.Scratch()
+	home := clidrv.Home("home")
+	path := clidrv.WriteFile(dir, "c12sp.klg", text)
+	type pair struct{ canon, alias []string }
+	var pairs []pair
+	for _, a := range [][3]string{{"day", "DAY", "d"}, {"week", "WEEK", "w"}, {"month", "MONTH", "m"}, {"quarter", "QUARTER", "q"}, {"year", "YEAR", "y"}} {
+		canon := []string{"report", "--aggregate", a[0], fill, "--diff", "--chart", "--no-style"}
+		short, cluster := "-f", "-fdc"
+		if fill != "--fill" {
+			short, cluster = "-d", "-dc"
+		}
+		pairs = append(pairs,
+			pair{canon, []string{"report", "--aggregate", a[1], fill, "--diff", "--chart", "--no-style"}},
+			pair{canon, []string{"report", "-a", a[2], short, "-d", "-c", "--no-style"}},
+			pair{canon, []string{"report", "--aggregate=" + a[2], cluster, "--no-style"}})
+	}
+	pairs = append(pairs,
+		pair{[]string{"report", "--no-style"}, []string{"report", "--aggregate", "day", "--no-style"}},
+		pair{[]string{"total", "--diff", "--now", "--no-style"}, []string{"total", "-d", "-n", "--no-style"}},
+		pair{[]string{"today", "--diff", "--now", "--no-style"}, []string{"today", "-dn", "--no-style"}},
+		pair{[]string{"tags", "--values", "--count", "--no-style"}, []string{"tags", "-v", "-c", "--no-style"}},
+		pair{[]string{"report", "--diff", "--now", "--no-style"}, []string{"report", "-d", "-n", "--no-style"}},
+	)
+	for _, p := range pairs {
+		c.Eval(1)
+		c.Nontrivial(fw.HashMix(fw.HashString(strings.Join(p.alias, " ")), uint64(i)+1<<47))
+		cs := c12Case{"spelling", i, fw.Txt(text), p.alias}
+		o := clidrv.Opts{Now: fixedNow}
+		r0 := clidrv.Run(home, o, append(append([]string{}, p.canon...), path)...)
+		r1 := clidrv.Run(home, o, append(append([]string{}, p.alias...), path)...)
+		if r1.Panicked || r0.Code != r1.Code || r0.Stdout != r1.Stdout {
+			c.Violation("spelling-changes-output", cs, fmt.Sprintf("`klog %s` (exit %d) prints\n%s\nbut `klog %s` (exit %d, panic %v) prints\n%s", strings.Join(p.canon, " "), r0.Code, r0.Stdout, strings.Join(p.alias, " "), r1.Code, r1.PanicVal, r1.Stdout))
+			return
+		}
+	}
+	c.Outcome("spelling")
 }
 
 // clock readings for the today-ev family (the EV documents are dated relative to 2022-06-15)
@@ -97,6 +148,7 @@ func init() {
 		Rule: "files of 2 (all ordered pairs) and 3 (quick: a fixed quarter of the ordered triples, thorough: all) records dated from a " + fmt.Sprint(len(c12Dates())) + "-date calendar-boundary set (week-year edges of 52/53-week years, leap days, month/quarter/year ends, years 0000/0001/0999/1000/9998/9999), " +
 			"in file order as enumerated (unsorted, descending and duplicate dates occur); record i carries a total of 2^i minutes (so a row total identifies exactly which records it contains), a should-total and, in a variant, a negative total; " +
 			"x aggregation {day, week, month, quarter, year} x {plain, --fill (span <= 800 days), --diff, --fill --diff} (every other document also with --chart) x date filter {none, --since/--until, --period}; plus 80 today/--now documents, plus today-ev = every EV document of C06's quick tier (one record of 3 clock-relative dates x 4 should-totals x <=2 of 8 extreme/narrow/wide/open entries, optional second record) x 3 clock readings x {--diff, --diff --now}: the complete `klog today` table (Total, Should, Diff and forecast End-Time of the current-day row, the Other row and the All row) against the reference evaluation. " +
+			"plus a spelling family: on 40 documents, short flags (also clustered, -fdc), upper-case and one-letter --aggregate values must print exactly what the canonical spelling prints. " +
 			"A case = (file, report flags); non-trivial = at least one row; distinct by hash(text, flags).",
 		Assumptions: []string{
 			"independent bucketing by the specmodel calendar; rows are read back from `klog report --decimal --no-style` by fixed label columns (year, month, weekday/day, week, quarter) and by the '=' ruler for value columns",
@@ -116,8 +168,10 @@ func init() {
 					}
 				case 2:
 					c12Today(c, i)
-				default:
+				case 3:
 					c12TodayEV(c, i)
+				default:
+					c12Spellings(c, i)
 				}
 				if c.Expired() {
 					return
@@ -136,6 +190,8 @@ func init() {
 				c12Doc(c, cs.Fam, cs.I, 3)
 			case "today-ev":
 				c12TodayEV(c, cs.I)
+			case "spelling":
+				c12Spellings(c, cs.I)
 			default:
 				c12Today(c, cs.I)
 			}
@@ -307,9 +363,11 @@ func c12ParseReport(out, agg string, diff bool) (rows []c12Row, grand c12Row, wh
 			curY = y
 			curM = -1
 		}
-		if curY < 0 {
+		if curY < 0 && agg != "week" {
 			return nil, grand, fmt.Sprintf("row %d has no year and none to carry forward", i)
 		}
+		// (a week row in front of the first year label: 0000-01-01 and 0000-01-02 lie in week 52 of the ISO year
+		// before year 0, which has no four-digit label; it is read as year -1 and compared like any other row)
 		switch agg {
 		case "day":
 			ms := cell(lab, 5, 8)
